@@ -77,6 +77,18 @@ class Arr:
     __rmul__ = __mul__
 
     def __getitem__(self, i):
+        if len(self.shape) == 1 and isinstance(i, slice):
+            flat = self.flat[i]
+            return Arr((len(flat),), flat, self.rec)
+        if len(self.shape) == 1 and isinstance(i, int):
+            return Arr((), [self.flat[i]], self.rec)
+        if len(self.shape) == 2 and isinstance(i, slice):
+            r, c = self.shape
+            rows = list(range(r))[i]
+            return Arr((len(rows), c), [x for k in rows for x in self.flat[k * c:(k + 1) * c]], self.rec)
+        if len(self.shape) == 2 and isinstance(i, tuple) and len(i) == 2 and isinstance(i[0], int) and isinstance(i[1], (int, slice)):
+            row = self[i[0]]
+            return row[i[1]]
         if len(self.shape) != 2 or not isinstance(i, int):
             raise Unsupported("index %r on shape %s" % (i, self.shape))
         r, c = self.shape
